@@ -188,6 +188,36 @@ def _discharge(F, f, b, par, kind, x, text):
                     writes = [y for y in walk_all(w["body"]) if y.get("k") in ("Assign", "AssignOp") and pp(strip(y["l"])) == name]
                     if len(writes) == 1 and writes[0] is x:
                         return "G-dom-gt: the only write to %s in `while %s > 0`" % (name, name)
+        # G-dom-early: `if b > a { return / continue / break }` (or `a < b`, `>=`/`<=` likewise) earlier in an enclosing block,
+        # with neither operand written in between, dominates `a - b` / `a -= b`
+        lhs_e, rhs_e = (x["l"], x["r"])
+        an, bn = pp(strip(lhs_e)), pp(strip(rhs_e))
+        for a in _ancestors(par, x):
+            if a.get("k") != "Block":
+                continue
+            guard = None
+            for st in a.get("stmts", []):
+                if any(x is z for z in walk_all(st)):
+                    break
+                e = st.get("e") if st.get("k") != "Let" else None
+                if isinstance(e, dict) and unblock(e).get("k") == "If" and not unblock(e).get("else"):
+                    i = unblock(e)
+                    c = unblock(i["cond"])
+                    leaves = unblock(i["then"]).get("ty") == "!" or any(z.get("k") in ("Return", "Break", "Continue") for z in walk_all(i["then"]))
+                    if c.get("k") == "Binary" and leaves:
+                        l, r, op = pp(strip(c["l"])), pp(strip(c["r"])), c["op"]
+                        if (op in ("Gt", "Ge") and l == bn and r == an) or (op in ("Lt", "Le") and l == an and r == bn):
+                            guard = "%s %s %s" % (l, op, r)
+                            continue
+                if guard is not None:
+                    # a write to either operand after the guard invalidates it
+                    for z in walk_all(st):
+                        if z.get("k") in ("Assign", "AssignOp") and pp(strip(z["l"])) in (an, bn):
+                            guard = None
+                    if st.get("k") == "Let" and st.get("pat", {}).get("name") in (an, bn):
+                        guard = None
+            if guard is not None:
+                return "G-dom-early: `if %s { leave }` dominates the subtraction" % guard
         return None
     if kind == "index":
         if x.get("k") == "Call":
@@ -415,8 +445,8 @@ def s_loop(F, R):
                     R.ok("S-loop", key + "/state-dispatch", "outer state dispatch: each pass returns or moves Header -> Body")
                 else:
                     R.fail("S-loop", key + "/no-progress", "%s: loop without a transport read or counter in its body" % f["root"], where=loc(x))
-    R.floor("S-loop", "while loops", n["While"], 19)
-    R.floor("S-loop", "raw loops", n["Loop"], 4)
+    # one floor on the total: a loop rewritten from one kind to another (loop -> for, while -> loop) is still a loop
+    R.floor("S-loop", "loops in the decode closure", n["While"] + n["Loop"] + n["For"], 15)
     R.analysed["loops"] = n
     # recursion: the decode call graph is acyclic
     from r_io import callgraph
